@@ -381,6 +381,35 @@ func runC17(p params) error {
 		sc := []string{"recv-inorder", "recv-reversed", "recv-shuffled-dup", "recv-missing", "recv-overlap", "recv-hostile"}[mode]
 		c17AddCase(out, sc, c17Input{Kind: "recv", Frags: frags, Calls: calls})
 	}
+	// a message covered by windows that overlap their neighbours (every fragment but the first starts inside what has
+	// arrived and brings bytes that have not: a re-split after a path MTU change looks like this), in every order
+	{
+		for k, v := range [][3]int{{100, 40, 60}, {100, 50, 51}, {200, 7, 30}, {64, 1, 2}, {300, 90, 120}, {33, 16, 33}} {
+			blen, step, width := v[0], v[1], v[2]
+			body := rb(blen)
+			var fs []c17Frag
+			for off := 0; off < blen; off += step {
+				l := width
+				if off+l > blen {
+					l = blen - off
+				}
+				fs = append(fs, c17Frag{16, blen, 2 + k, off, l, body[off : off+l]})
+			}
+			c17AddCase(out, "recv-overlapping-windows", c17Input{Kind: "recv", Frags: append([]c17Frag{}, fs...), Calls: 1})
+			rev := append([]c17Frag{}, fs...)
+			for a, b := 0, len(rev)-1; a < b; a, b = a+1, b-1 {
+				rev[a], rev[b] = rev[b], rev[a]
+			}
+			c17AddCase(out, "recv-overlapping-windows", c17Input{Kind: "recv", Frags: rev, Calls: 1})
+			sh := append([]c17Frag{}, fs...)
+			r.Shuffle(len(sh), func(a, b int) { sh[a], sh[b] = sh[b], sh[a] })
+			c17AddCase(out, "recv-overlapping-windows", c17Input{Kind: "recv", Frags: sh, Calls: 1})
+		}
+		// the re-split of the agent-independent textbook case: [0,30) [50,100) [0,50)
+		body := rb(100)
+		c17AddCase(out, "recv-overlapping-windows", c17Input{Kind: "recv", Calls: 1,
+			Frags: []c17Frag{{16, 100, 9, 0, 30, body[:30]}, {16, 100, 9, 50, 50, body[50:]}, {16, 100, 9, 0, 50, body[:50]}}})
+	}
 	// the second half of a message arrives 1.3 s of wall-clock time after the first (a retransmitted flight brings it)
 	{
 		body := rb(200)
